@@ -422,7 +422,11 @@ class PDFStandardSecurityHandler:
         return result[:n]
 
     def authenticate(self, password: str) -> Optional[bytes]:
-        password_bytes = password.encode("latin1")
+        try:
+            password_bytes = password.encode("latin1")
+        except UnicodeEncodeError:
+            # cannot be the password of a revision 2-4 document
+            return None
         key = self.authenticate_user_password(password_bytes)
         if key is None:
             key = self.authenticate_owner_password(password_bytes)
